@@ -142,6 +142,14 @@ func traverseAll(r *Run, pj *simdjson.ParsedJson, what string) bool {
 				}
 				elem.StringCvt()
 				elem.Interface()
+				// every typed accessor on whatever the iterator stands on (most of them are conversions or errors)
+				elem.Float()
+				elem.FloatFlags()
+				elem.Int()
+				elem.Uint()
+				elem.Bool()
+				elem.String()
+				elem.StringBytes()
 			}
 		})
 	})
